@@ -2,6 +2,7 @@
 from .condprops import make_case, rotations, CTOR_VARIANTS
 
 PROP = "C09"
+EXTRA_DRAWS = 0      # the thorough tier of this property is long already: no additional draws of the generic rationals
 KINDS = ["full", "diag", "identity", "identitydiag", "nncontrol"]
 
 BOUNDS = {
